@@ -41,7 +41,11 @@ def library_crash(exc):
     last = None
     tb = exc.__traceback__
     while tb is not None:
-        fn = os.path.abspath(tb.tb_frame.f_code.co_filename)
+        fn = tb.tb_frame.f_code.co_filename
+        if not os.path.isabs(fn):      # compiled-extension frames ("numpy/random/_generator.pyx") belong to neither side
+            tb = tb.tb_next
+            continue
+        fn = os.path.abspath(fn)
         if fn.startswith(lib):
             last = ("lib", fn[len(lib):], tb.tb_frame.f_code.co_name, tb.tb_lineno)
         elif fn.startswith(VERIF_DIR + os.sep):
